@@ -136,6 +136,52 @@ def mapping_level(run):
     return behs
 
 
+NSIM_R = {"quick": {"S1": 60, "S2": 30}, "thorough": {"S1": 500, "S2": 300, "S3": 300}}
+
+
+def rounds_level(run):
+    """Part (ii): the real disruption.Controller.Reconcile runs the rounds (emptiness / drift on the generated clusters),
+    commands are left in flight or completed by the real orchestration queue; every command that starts is judged."""
+    behs = []
+    for name, num in NSIM_R[run.tier].items():
+        sc = bc.with_hits(run, bc.SCENARIOS[name])
+        hs = bc.simulate(run, name + "x", sc, num, 20, env_all=False, max_rounds=8)
+        behs += bc.round_behaviours(sc, hs, name + ":tlc-sim")
+        behs += bc.systematic_rounds(sc, name)
+    bpath = os.path.join(run.work, "budget-round-behs.json")
+    json.dump(behs, open(bpath, "w"))
+    out = json.loads(run.drv("budgets-rounds", ["-in", bpath, "-out", os.path.join(run.work, "traces-rounds"), "-shards", 8]))
+    starts = collections.Counter()
+    multi = 0
+    has_start = {}
+    errors = 0
+    for f in out["files"]:
+        cur = None
+        for line in open(f):
+            ev = json.loads(line)
+            if ev["e"] == "Cfg":
+                cur = ev["beh"]
+                has_start[cur] = False
+            elif ev["e"] == "Start":
+                has_start[cur] = True
+                starts["%s/%s" % (ev["method"].split(".")[-1], ev["reason"])] += 1
+                if len(ev["sel"]) > 1:
+                    multi += 1
+            elif ev["e"] == "End" and ev["err"] != "-":
+                errors += 1
+    for i, b in enumerate(behs):
+        run.note_case(("round", i), has_start.get(i, False))
+    run.validate("Budgets_Trace", "Budgets_Trace.cfg", out["files"], par=4)
+    run.extra_cov["round_behaviours"] = len(behs)
+    run.extra_cov["round_behaviours_with_a_start"] = sum(1 for v in has_start.values() if v)
+    run.extra_cov["commands_started_by_method_reason"] = dict(starts)
+    run.extra_cov["multi_node_commands"] = multi
+    run.extra_cov["reconciles_returning_error"] = errors
+    if not starts:
+        raise vlib.InfraError("no disruption command was ever started by the real controller: the round level is vacuous")
+    return behs
+
+
 def check(run):
     run.rule = ("(i) TLC enumerates the whole case space of Budgets.tla (families W window edges h-1s,h,h+d-1s,h+d,h+d+1s x "
                 "schedules x durations; V values x pool sizes 0..12; R reason lists absent/empty/each/several; L lists of 2-3 "
@@ -154,6 +200,9 @@ def check(run):
     if only in ("", "unit"):
         cases = unit_level(run)
         run.samples = [cases[0], cases[len(cases) // 2], cases[-1]]
+    if only in ("", "rounds"):
+        rb = rounds_level(run)
+        run.samples.append({"round_behaviour": rb[0]["steps"], "scenario": rb[0]["tag"]})
     if only in ("", "map"):
         behs = mapping_level(run)
         run.samples.append({"mapping_behaviour": behs[0]["steps"], "scenario": behs[0]["tag"]})
